@@ -1040,7 +1040,57 @@ func c15Handlers(r *core.Run, prog *core.Program, sb *packages.Package, shapes [
 					}
 					*out = append(*out, e)
 				}
+				noteCond := func(cond ast.Expr, at token.Pos) {
+					var cs []ast.Expr
+					conj(cond, &cs)
+					var t, a *int64
+					for _, c := range cs {
+						if v, ok := fieldCmp(c, "Timec"); ok {
+							v := v
+							t = &v
+						}
+						if v, ok := fieldCmp(c, "Action"); ok {
+							v := v
+							a = &v
+						}
+					}
+					if t != nil && a != nil {
+						if _, dup := handled[class{*t, *a}]; !dup {
+							handled[class{*t, *a}] = prog.Pos(at)
+						}
+					} else if a != nil {
+						for c := range classes {
+							if c.a == *a {
+								if _, dup := handled[c]; !dup {
+									handled[c] = prog.Pos(at)
+								}
+							}
+						}
+					}
+				}
 				ast.Inspect(rs.Body, func(m ast.Node) bool {
+					switch x := m.(type) {
+					case *ast.SwitchStmt:
+						// `switch { case rule.Timec == T && rule.Action == A: … }` and
+						// `switch rule.Action { case A: … }`: the same comparisons as the if-form
+						if x.Tag == nil {
+							for _, cl := range x.Body.List {
+								for _, v := range cl.(*ast.CaseClause).List {
+									noteCond(v, v.Pos())
+								}
+							}
+							return true
+						}
+						if sel, ok := ast.Unparen(x.Tag).(*ast.SelectorExpr); ok && sel.Sel.Name == "Action" {
+							if id, ok := ast.Unparen(sel.X).(*ast.Ident); ok && info.ObjectOf(id) == obj {
+								for _, cl := range x.Body.List {
+									for _, v := range cl.(*ast.CaseClause).List {
+										noteCond(&ast.BinaryExpr{X: x.Tag, Op: token.EQL, Y: v}, v.Pos())
+									}
+								}
+							}
+						}
+					}
 					switch x := m.(type) {
 					case *ast.IfStmt:
 						var cs []ast.Expr
